@@ -41,3 +41,4 @@ void x__ZNSt7__cxx1112basic_stringIcSt11char_traitsIcESaIcEE7reserveEm(vstr *s, 
   if (old) vf_copy(np, VS_P(s), old);
   np[old] = 0; VS_P(s) = np; VS_CAP(s) = VF_MAXCOPY;
 }
+uint8_t *x__ZNSt7__cxx1112basic_stringIcSt11char_traitsIcESaIcEEixEm(vstr *s, uint64_t i) { return VS_P(s) + i; }
